@@ -596,6 +596,21 @@ func (w *daWorld) oracleBlock(pre, post daSnap, par daParams, asg daAssign, acti
 					ch = append(ch, r)
 				}
 			}
+			if rejected && len(ch) > 0 {
+				allWrong := true
+				for _, r := range ch {
+					hit := false
+					for _, i := range r.idx {
+						if safe[i] {
+							hit = true
+						}
+					}
+					allWrong = allWrong && hit
+				}
+				if allWrong {
+					e.Stat("tally.rejected_every_challenger_flagged_a_safe_shard")
+				}
+			}
 			if rejected {
 				n := int64(len(ch))
 				for _, d := range daDenoms {
@@ -944,6 +959,13 @@ func daHistory(e *Env, zk *daZk, h int) {
 					fallthrough
 				default:
 					ix = append(ix, int64(r.N(max(it.shards, 1))))
+				}
+			}
+			if r.N(5) == 0 && it.shards > 0 {
+				// a blanket challenge: every shard is flagged, so every shard that turns out safe makes this challenger wrong
+				ix = nil
+				for i := 0; i < it.shards; i++ {
+					ix = append(ix, int64(i))
 				}
 			}
 			e.In("invalid %s %s %s", sender, uri, daIdxStr(ix))
